@@ -11,7 +11,7 @@ INVARIANTS = ["TypeOK", "Refines", "RowIndep", "TermsRefine", "Layout", "Untouch
 
 TIERS = {
     # constants of MC_HFModel per tier; emit = fraction of specifications printed for replay
-    "quick": dict(MaxPlace=2, MaxChan=2, BinChoices={1, 2}, NPts=2, Settings={1, 2, 3, 4}, Overrides={0, 1, 2}, EmitMod=12),
+    "quick": dict(MaxPlace=2, MaxChan=2, BinChoices={1, 2}, NPts=2, Settings={1, 2, 3, 4}, Overrides={0, 2}, EmitMod=12),
     "thorough": dict(MaxPlace=3, MaxChan=2, BinChoices={1, 2}, NPts=3, Settings={1, 2, 3, 4, 5, 6}, Overrides={0, 1, 2}, EmitMod=30),
 }
 
